@@ -21,7 +21,9 @@ RULE = ("scenario = history of <=10 client steps {send, recv, ping, close(status
         "virtual seconds.  Threaded part: a second thread sits in recv()/recv_data()/recv_data_frame() (blocking or with a socket "
         "timeout) while this thread calls close() under coop/prob/pct schedules, the server possibly starting its own "
         "closing handshake at the same moment: <=1 close frame on the wire, close() returns within its timeout and releases "
-        "the transport, the reader ends with a documented exception.  non-trivial = the history contains a close, a loss or an out-of-range status; distinct = "
+        "the transport, the reader ends with a documented exception.  Sweep: the server starts the closing handshake, a second "
+        "thread calls close() exactly when the reading thread is at its k-th traced line inside the library, for every k of "
+        "three reference runs (every 2nd in quick).  non-trivial = the history contains a close, a loss or an out-of-range status; distinct = "
         "(step kinds, peer reaction, loss kind, status classes)")
 ASSUMPTIONS = ["a user's explicit send_close is not 'own initiative' and is counted separately",
                "after the server's close frame was received, what send/recv/ping do before close() is not pinned down",
@@ -36,6 +38,12 @@ def plan(tier, seed):
     per = 500 if tier == "quick" else 4000
     for s in range(0, n, per):
         items.append({"kind": "rand", "start": s, "count": per})
+    step = 2 if tier == "quick" else 1
+    for ref in range(3):
+        for ch in range(6):
+            items.append({"kind": "tsweep", "ref": ref, "chunk": ch, "step": step,
+                          "exhaustive": "close() from a second thread at every traced line of a thread reading the server's close frame (3 reference runs)"
+                          if step == 1 else None})
     items.append({"kind": "tgrid", "exhaustive": "reader thread {recv, recv_data, recv_data_frame} x socket timeout {none, 2 s} x every peer reaction x close timeout x 2 policies"})
     nt = 3000 if tier == "quick" else 240000
     for s in range(0, nt, per // 2):
@@ -66,7 +74,25 @@ def genT(rng):
     return sc
 
 
+def _sweep_ref(i):
+    # the reading thread is the traced one; the server starts the closing handshake itself (reference 0), answers a ping first
+    # (1), or sends data and then closes (2)
+    script = [[{"t": S // 2, "hex": R.encode_frame(1, 8, b"\x03\xe9").hex(), "close": True}],
+              [{"t": S // 4, "hex": R.encode_frame(1, 9, b"p").hex()}, {"t": S // 2, "hex": R.encode_frame(1, 8, b"\x03\xe8bye").hex(), "close": True}],
+              [{"t": S // 4, "hex": R.encode_frame(1, 1, b"data").hex()}, {"t": S // 2, "hex": R.encode_frame(1, 8, b"").hex(), "close": True}]][i]
+    return {"kind": "threaded_sweep", "script": script, "reader": ("recv_data", "recv", "recv_data_frame")[i], "timeout": 2 * S, "seed": 5 + i}
+
+
 def expand(item, seed):
+    if item["kind"] == "tsweep":
+        base = _sweep_ref(item["ref"])
+        ref = run(dict(base, k=-1))
+        lines = ref.info.get("reader_lines", 0)
+        lo, hi = 1 + item["chunk"] * 300, (item["chunk"] + 1) * 300
+        for kk in range(lo, min(lines, hi) + 1):
+            if item["step"] == 1 or kk % item["step"] == 0:
+                yield dict(base, k=kk)
+        return
     if item["kind"] == "tgrid":
         for reader in ("recv", "recv_data_frame", "recv_data"):
             for tmo in (None, 2 * S):
@@ -327,7 +353,116 @@ def STD_REQ(conn):
     return i + 4 if i >= 0 else 0
 
 
+def runSweep(sc, choices):
+    """The reading thread (traced, tid 0) receives the server's close frame; a second thread calls close() the moment the
+    reader reaches its k-th traced line inside the library: the reader's automatic reply and close() must not both put a
+    close frame on the wire."""
+    res = Result()
+    try:
+        kk = int(sc["k"])
+        reader = sc["reader"]
+        if reader not in ("recv", "recv_data", "recv_data_frame"):
+            raise InvalidScenario("reader")
+        script = list(sc["script"])
+        for it in script:
+            bytes.fromhex(it["hex"])
+        T = int(sc.get("timeout", 2 * S))
+    except (KeyError, TypeError, ValueError) as e:
+        raise InvalidScenario(str(e))
+    peer_cfg = {"script": script, "on_close": {"mode": "reply"}, "on_ping": {"mode": "pong"}, "eof_on_client_eof": True}
+    w, peers = std_world(seed=int(sc.get("seed", 1)), peer_cfg=peer_cfg, policy={"kind": "at", "tid": 0, "k": kk, "rand_block": False},
+                         choices=choices, step_cap=400_000)
+    out = {}
+    gate = [False]
+    with w:
+        ws = w.ws
+        c = ws.WebSocket(enable_multithread=True)
+        c.settimeout(T / S)
+        c.connect(f"ws://{HOST}/")
+        conn = w.net.conns[0]
+        sock = w.net.sockets[0]
+
+        def hook(rec, frame):
+            if rec.tid == 0 and rec.lines == kk:
+                gate[0] = True
+                w.k.ev("closer_gate", frame.f_code.co_name, frame.f_lineno)
+
+        w.k.line_hook = hook
+
+        def closer():
+            w.k.wait(lambda: gate[0], None, "closer_gate")
+            if out.get("cancelled"):
+                return
+            w.k.ev("closer_fires")
+            try:
+                c.close(1001, b"own close", timeout=1)
+                out["close_exc"] = None
+            except SimAbort:
+                raise
+            except BaseException as e:  # noqa
+                out["close_exc"] = e
+
+        th = seams.SimThread(target=closer, name="closer")
+        ends = None
+        try:
+            w.k.start_tracing()
+            th.start()
+            for _ in range(8):
+                try:
+                    if reader == "recv":
+                        c.recv()
+                    elif reader == "recv_data":
+                        c.recv_data(True)
+                    else:
+                        c.recv_data_frame(True)
+                except SimAbort:
+                    raise
+                except ws.WebSocketTimeoutException:
+                    continue
+                except BaseException as e:  # noqa
+                    ends = (exc_name(e), isinstance(e, (ws.WebSocketException, OSError)))
+                    break
+        except SimAbort:
+            out["abort"] = w.k.abort_reason
+        finally:
+            if w.k.tracing:
+                w.k.stop_tracing()
+            w.k.line_hook = None
+        out["reader_lines"] = w.k.main.lines
+        if "abort" not in out:
+            try:
+                if not gate[0]:
+                    out["cancelled"] = True
+                    gate[0] = True
+                th.join(30)
+            except SimAbort:
+                out["abort"] = w.k.abort_reason
+        frames, pos = R.decode_all(bytes(conn.rx[STD_REQ(conn):]))
+        fired = any(e[3] == "closer_fires" for e in w.k.log)
+        where = next(((e[4], e[5]) for e in w.k.log if e[3] == "closer_gate"), None)
+    res.absorb(w)
+    res.info["reader_lines"] = out.get("reader_lines", 0)
+    closes = [f for f in frames if f.opcode == 8]
+    ctx = "reader_thread/close_at_line"
+    if "abort" in out:
+        res.violate("call_hangs", "reader_thread", f"close() at line {kk} of the reading thread {where}: run aborted ({out['abort']})")
+    elif len(closes) > 1:
+        res.violate("second_close_frame", ctx, f"close() entered when the reading thread was at {where} (its line {kk}): {len(closes)} close frames on the wire "
+                    f"{[f.payload[:2].hex() for f in closes]}")
+    elif fired and out.get("close_exc") is not None:
+        res.violate("close_raised", ctx, f"close() at line {kk} {where} raised {exc_name(out['close_exc'])}: {out['close_exc']}")
+    elif ends is not None and ends[1] is not True:
+        res.violate("unexpected_exception", ctx, f"close() at line {kk} {where}: the reading thread ended with {ends[0]}")
+    res.sig = repr(("S", reader, kk if fired else -1, len(closes)))
+    res.nontrivial = fired
+    if fired:
+        res.probes["close_at_reader_line"] = 1
+    return res
+
+
 def run(sc, choices=None):
+    if sc.get("kind") == "threaded_sweep":
+        return runSweep(sc, choices)
     if sc.get("kind") == "threaded":
         return runT(sc, choices)
     res = Result()
@@ -623,6 +758,8 @@ class _EveryGap(dict):
 
 
 def sample_view(sc, r):
+    if sc.get("kind") == "threaded_sweep":
+        return {"sweep": "close() when the reading thread is at its k-th traced line", "k": sc.get("k"), "reader": sc.get("reader"), "script": sc.get("script")}
     if sc.get("kind") == "threaded":
         return {k: sc.get(k) for k in ("reader", "timeout", "pre", "wait", "status", "close_timeout", "script", "reaction", "policy", "peer_close_at")}
     return {"steps": sc["steps"], "peer_script": [{k: v for k, v in it.items()} for it in sc.get("script", ())],
